@@ -1,6 +1,7 @@
 import BfeVerif.C45.Proofs
 import BfeVerif.C45.HelloRtCH
 import BfeVerif.C45.MoreRt
+import BfeVerif.C45.Chunking
 /-!
   C45 — TLS handshake messages round-trip and parse safely.  Property theorems only.
 
@@ -66,6 +67,14 @@ theorem C45_total_nextProto (d : Bytes) : umNextProto d ≠ .crash := umNextProt
 
 theorem C45_total_certificateVerify (has : Bool) (d : Bytes) : umCertificateVerify has d ≠ .crash :=
   umCertificateVerify_total has d
+
+/-- **C45_readHandshake_chunking.**  `Conn.readHandshake` reassembles a message from handshake records; as long as
+    no record trips one of readRecord's size rules (≤ 2^14 bytes each, and < 0x3000 while the version is not yet
+    known), the bytes it hands to `unmarshal` (or the error: EOF before the message is complete, internal_error for
+    a length above 65536) are a function of the concatenated bytes alone — any cutting of the message into records,
+    including empty records and cuts inside the 4-byte header, gives the same result. -/
+theorem C45_readHandshake_chunking (haveVers : Bool) (records : List Bytes) (hok : recordsOK haveVers records = true) :
+    readHandshakeBytes haveVers records = hsSpec records.flatten := readHandshake_chunking haveVers records hok
 
 /-! ### round trip -/
 
